@@ -761,6 +761,9 @@ def replay(case):
             except Violation as v:
                 return v.what
         return None
+    if t is not None:
+        # a generic report (exception escaping from the library, task set-up, time limit)
+        return sweep.replay_by_task(dispatch)(case)
     return None
 
 
